@@ -45,6 +45,7 @@ type c15Inv struct {
 	tagsPtr  uintptr
 	entryBad string
 	afterBad string
+	origArgs []string     // the slice as handed over (appending below re-allocates; the original array must stay referenced too)
 	line     *client.Line // kept alive until the event is judged: otherwise the allocator may legitimately reuse the storage of a finished invocation
 }
 
@@ -92,6 +93,7 @@ func runC15(c *Ctx) {
 				// 2. storage identity
 				if cap(l.Args) > 0 {
 					inv.argsPtr = reflect.ValueOf(l.Args).Pointer()
+					inv.origArgs = l.Args
 				}
 				if l.Tags != nil {
 					inv.tagsPtr = reflect.ValueOf(l.Tags).Pointer()
